@@ -124,6 +124,24 @@ func appendEnc(out *Enc, sub Enc) {
 }
 
 func (e *refEncoder) enc(n *Node, v reflect.Value) Enc {
+	if n.Code != nil {
+		switch n.Kind {
+		case KStruct, KByteArr, KCustom, KPtr, KIface:
+			// these write their code themselves (below)
+		default:
+			// documented layout: the type code of a registered object precedes its serialized form, whatever its kind
+			plain := *n
+			plain.Code = nil
+			inner := e.enc(&plain, v)
+			if inner.Reject != "" {
+				return inner
+			}
+			out := Enc{B: codeBytes(n.Code), F: []FieldRef{{Off: 0, W: n.Code.W, Kind: "code", Group: 0}}}
+			appendEnc(&out, inner)
+
+			return out
+		}
+	}
 	switch n.Kind {
 	case KBool:
 		b := byte(0)
